@@ -110,6 +110,12 @@ def run(rep, tier, driver):
             histories.append([dict({"fn": "convert", "glycan_list": [g, "Gal"]}, **a), dict({"fn": "convert", "glycan_list": ["Gal", g]}, **b),
                               dict({"fn": "convert_generator", "glycan_list": [g]}, **b), dict({"fn": "convert", "glycan": g}, **a),
                               {"fn": "glycan", "iupac": g, "opts": b, "methods": [["get_smiles"]]}, dict({"fn": "convert_generator", "glycan_list": [g, g]}, **a)])
+    # tree_only objects: the tree handed out, counts and the dot file must be the same before and after get_smiles / summary
+    for g in ["Glc6S", "Man(a1-4)Glc6S", "3dGalOct-ulosonic", "Neu5Ac(a2-3)Gal6S(b1-4)GlcNAc", "Glc2NAc3Me"]:
+        root = g.split(")")[-1].split("]")[-1]
+        for opts in ({"tree_only": True}, {"tree_only": True, "full": False}, {"tree_only": True, "root_orientation": "b"}):
+            qs = [["count", root, {"match_all_fg": True, "match_root": True}], ["count", g, {"match_all_fg": True, "match_nodes": True}], ["tree"], ["save_dot"]]
+            histories.append([{"fn": "glycan", "iupac": g, "opts": opts, "methods": qs + [["get_smiles"]] + qs + [["summary"]] + qs}])
     # generators that are never advanced (nothing may happen, the logger switch included), and the fall-back to stdout when the
     # directory of the output file does not exist (the host's stdout must stay open), followed by ordinary calls
     for how in ("drop", "close", "islice0"):
